@@ -207,12 +207,16 @@ fn serve(out_fd: i32) {
     }
 }
 
-fn read_corpus(path: &str) -> Vec<(u32, String)> {
+/// (entry point, document, background, fill colour, scale)
+fn read_corpus(path: &str) -> Vec<(u32, String, String, String, f32)> {
     let mut f = BufReader::new(File::open(path).expect("corpus"));
     let mut out = vec![];
     while let Some(entry) = rd_u32(&mut f) {
         let s = rd_str(&mut f).expect("corpus string");
-        out.push((entry, s));
+        let bg = rd_str(&mut f).expect("corpus string");
+        let fill = rd_str(&mut f).expect("corpus string");
+        let scale = rd_f32(&mut f).expect("corpus scale");
+        out.push((entry, s, bg, fill, scale));
     }
     out
 }
@@ -239,12 +243,17 @@ fn race(threads: usize, corpus_path: &str, out_path: &str) {
                     stride += 1;
                 }
                 let start = (t * 37) % n.max(1);
-                let st = Settings::default();
                 barrier.wait();
                 let mut results: Vec<(usize, u8, String)> = Vec::with_capacity(n);
                 for k in 0..n {
                     let i = (start + k * stride) % n;
-                    let (entry, input) = &corpus[i];
+                    let (entry, input, bg, fill, scale) = &corpus[i];
+                    let st = Settings {
+                        background: bg.clone(),
+                        fill_color: fill.clone(),
+                        scale: *scale,
+                        ..Settings::default()
+                    };
                     let res = panic::catch_unwind(|| convert(*entry, input, &st, 0.0, 0.0));
                     match res {
                         Ok(s) => results.push((i, 0, s)),
